@@ -716,14 +716,29 @@ pub fn validate_decompression_operation(
     // Check session limits first (current + projected)
     session_tracker.check_session_limits_with_addition(expected_decompressed_size, limits)?;
 
-    // Validate basic file bounds
-    validate_file_bounds(
-        0, // offset not relevant for this check
-        expected_decompressed_size,
-        compressed_size,
-        u64::MAX, // archive size not relevant for this check
-        limits,
-    )?;
+    // Validate basic file bounds. With adaptive limits enabled the compression ratio is
+    // judged by `detect_compression_bomb_patterns` below (limit scaled by stored size and
+    // method); the fixed `max_compression_ratio` test of `validate_file_bounds` would
+    // otherwise reject highly compressible data the builder itself produced (e.g. a
+    // sector of one byte value) before the adaptive limit is ever consulted.
+    if limits.enable_adaptive_limits && limits.enable_pattern_detection {
+        if compressed_size == 0 {
+            return Err(Error::invalid_format("Compressed file size cannot be zero"));
+        }
+        if expected_decompressed_size > limits.max_decompressed_size {
+            return Err(Error::resource_exhaustion(
+                "File size exceeds maximum allowed limit",
+            ));
+        }
+    } else {
+        validate_file_bounds(
+            0, // offset not relevant for this check
+            expected_decompressed_size,
+            compressed_size,
+            u64::MAX, // archive size not relevant for this check
+            limits,
+        )?;
+    }
 
     // Run pattern-based compression bomb detection
     detect_compression_bomb_patterns(
